@@ -185,7 +185,11 @@ function runChunk(job) {
     for (const pick of envs(ids, job.nenv, job.full, rand)) {
       const data = {}
       ids.forEach((n, i) => { data[n] = POOL[pick[i]] })
-      const env = (n) => data[n]
+      // scoped cases: the binding stands in two nested lists that both call their item `a` and their index `b`; the
+      // identifiers denote the INNER item and index (the lists are objects with one key each, so that the two indexes
+      // differ and the binding is evaluated once), not the outer ones, not the data fields
+      const env = c.scoped ? (n) => (n === 'b' ? 'ki' : data[n]) : (n) => data[n]
+      const genData = c.scoped ? Object.assign({}, data, { zo: { ko: 'OUTER-A' }, zi: { ki: data.a }, a: 'DATA-A', b: 'DATA-B' }) : data
       let want
       let wantErr = null
       CALLS.length = 0
@@ -199,12 +203,18 @@ function runChunk(job) {
         const w = new ProcGenWrapper(procGen)
         // (a deep copy: faulty generated code such as `++D.a` or `Object.assign(D.o, ..)` must not change what
         // the oracles see; and since no expression form of WXML assigns, the copy must come back unchanged)
-        const mine = deepCopy(data)
+        const mine = deepCopy(genData)
         w.create(mine)
-        const root = w.shadowRoot.childNodes[0]
+        let root = w.shadowRoot.childNodes[0]
+        if (c.scoped) {
+          const found = []
+          const walk = (n) => { if (n && n.attrs && n.attrs.r && 'a' in n.attrs.r) found.push(n); for (const ch of (n && n.childNodes) || []) walk(ch) }
+          walk(w.shadowRoot)
+          root = found[found.length - 1] || { attrs: { r: {} } }
+        }
         got = root.attrs.r.a
         if (!('a' in root.attrs.r)) gotErr = 'no value delivered'
-        else if (!same(mine, data)) gotErr = 'the evaluation changed the data to ' + describe(mine)
+        else if (!same(mine, genData)) gotErr = 'the evaluation changed the data to ' + describe(mine)
         else if (!wantErr && !same(CALLS.slice(), wantCalls)) {
           gotErr = 'calls f with ' + describe(CALLS.slice()) + ' where JavaScript calls it with ' + describe(wantCalls)
           if (isSubsequence(wantCalls, CALLS.slice()) && hasLazyIndexCall(c.tree, false)) eager = true
@@ -222,7 +232,7 @@ function runChunk(job) {
         out.mismatches.push({
           path: c.path,
           text: c.text,
-          env: ids.map((n) => n + '=' + describe(data[n])).join(' '),
+          env: (c.scoped ? '(inner item a, inner index b) ' : '') + ids.map((n) => n + '=' + describe(env(n))).join(' '),
           got: gotErr ? (/^(calls f|the evaluation|no value)/.test(gotErr) ? '' : 'throws ') + gotErr : describe(got),
           want: wantErr ? 'throws ' + wantErr : describe(want),
           cls: spreadClasses(c.tree, env).concat(eager ? ['eager-index-call'] : []),
@@ -233,7 +243,7 @@ function runChunk(job) {
       if (native) {
         let nat
         let natErr = null
-        try { nat = native(...ids.map((n) => data[n])) } catch (e) { natErr = e && e.constructor ? e.constructor.name : 'Error' }
+        try { nat = native(...ids.map((n) => env(n))) } catch (e) { natErr = e && e.constructor ? e.constructor.name : 'Error' }
         const ook = wantErr || natErr ? wantErr === natErr : same(nat, want)
         if (!ook && out.oracle.length < 20) {
           out.oracle.push({ path: c.path, text: c.text, env: ids.map((n) => n + '=' + describe(data[n])).join(' '),
